@@ -42,7 +42,27 @@ def run(c: Check):
                         e["client"]["addr"], e["client"]["fam"], e["client"]["loc"], e["opt"], e["optsub"], e["q"], e["fwd"],
                         e["rcode"], e["content"], e["echoaddr"], e["echolen"], e["echoscope"], t[1]),
                     {"event": e, "history": [x for x in ev if x.get("beh") == e.get("beh") and x.get("id", 0) <= e.get("id", 0)]})
-    c.assumptions += ["GeoIP is a fake with a fixed table; client address, client-supplied subnet and coarse subnet are "
+    # ---- GeoIP side: the location of an address is a function of the address alone (real geoip.File)
+    outg, _ = c.go_harness("internal/geoip", "^TestVerifC05GeoIPCache$", files=["c05geo_test.go"],
+                           env={"VERIF_ROUNDS": 30 if th else 6})
+    gev = read_ndjson(outg)
+    if len(gev) < 200 or not any(e["mapped"] for e in gev) or len(set(e["cold"] for e in gev)) < 5:
+        raise Undecided("GeoIP harness vacuous: %d look-ups, %d distinct locations" % (len(gev), len(set(e["cold"] for e in gev))))
+    gpath = os.path.join(c.scratch, "c05geo.ndjson")
+    write_ndjson(gpath, [{"warm": e["warm"], "cold": e["cold"]} for e in gev])
+    rg = c.tlc_trace("TraceGeoIPCache", "TraceGeoIPCache.cfg", gpath, timeout=600)
+    if rg.tuples("STUCK"):
+        raise Undecided("GeoIP trace spec stuck")
+    c.cov["traces_validated_against_impl"] += len(gev) - len(rg.tuples("NONCONF"))
+    for e in gev:
+        c.count_case(("geo", e["ip"], e["step"]), nontrivial=e["cold"] != "nil")
+    for t in rg.tuples("NONCONF"):
+        e = gev[int(t[0]) - 1]
+        c.violation({"kind": "geoip-cache", "mapped": e["mapped"]},
+                    "C05 geoip.File look-up no. %d of %s: warm instance says %s, a fresh instance says %s: %s" % (
+                        e["step"], e["ip"], e["warm"], e["cold"], t[1]), e)
+    c.assumptions += ["GeoIP is a fake with a fixed table in the handler-stack harness (the real geoip.File with the "
+                      "repository's MaxMind test databases is checked separately for look-up history independence); client address, client-supplied subnet and coarse subnet are "
                       "pairwise different", "the upstream fake scopes answers of names under s. to the received subnet",
                       "C05 is claimed for cache.type ecs only (DESIGN 6 C05)", "TLC, SANY, CommunityModules Json"]
 
